@@ -181,6 +181,20 @@ CLAIMED['C19'] = {
             'The document-level listing property is an oracle on the implementation, not yet a theorem.',
     'technique': 'Coq proof (chunk calculus over the writer monad, 256-character sweeps for the escape function) + extracted-model correspondence + oracle',
 }
+CLAIMED['C12'] = {
+    'text': 'PARTIAL. Theorem C12_reader_independent_partial: for every document (15 header fields + any body of segments writable with both '
+            'delimiter triples), any two admissible triples, any two runs of CR/LF after the terminators and any two chunkings of the '
+            'input, the reader model returns the same version, the same segments (ISA16 apart) and the same errors at the same segment '
+            'positions, and completes; with C12_segment_delims_irrelevant and C12_line_breaks_irrelevant. Hypothesis: the control '
+            'elements the reader interprets carry one component. The rest of the pipeline (walker, element validation, '
+            'acknowledgement) consumes parsed segments; its delimiter independence is not proved but compared on the implementation: '
+            'corpus and generated documents re-encoded with 8 triples x 5 line conventions, verdict, every handler call and the '
+            'acknowledgement text compared.',
+    'design_ref': 'DESIGN.md §6 C12, §11',
+    'note': 'Partial: theorem covers the reader only. Trusted: Coq kernel, hand transcription of reader/segment/raw file (tied by '
+            'reader correspondence), Spec/C12_spec.v, extraction.',
+    'technique': 'Coq proof (re-uses the C01 chunk-independence and round-trip theorems; induction over the body with the reader state generalised) + differential re-encoding runs',
+}
 
 NOT_YET = {
 }
